@@ -53,6 +53,7 @@ Enabled(a) ==
     [] a[1] = "order"     -> h[a[2]] > 0 /\ Clean /\ Len(res) < MaxRes      \* preorder().search_nodes()
     [] a[1] = "path"      -> h[a[2]] > 0 /\ Clean /\ Len(res) < MaxRes /\ a[3] # a[2] /\ a[3] \in Reach(G, a[2])
     [] a[1] = "dropres"   -> a[2] <= Len(res)
+    [] a[1] = "lookup"    -> h[a[2]] > 0 /\ Clean      \* key look-ups: is_connected / find_* / a refused try_connect
 
 After(a) ==
   CASE a[1] = "connect"   -> LET r == ConnectOutcome(out, inn, a[2], a[3], 1) IN
@@ -74,6 +75,7 @@ After(a) ==
                                                    objs |-> {a[2], a[3]}])]
     [] a[1] = "dropres"   -> [out |-> out, inn |-> inn, h |-> h, inC |-> inC,
                               res |-> SubSeq(res, 1, a[2] - 1) \o SubSeq(res, a[2] + 1, Len(res))]
+    [] a[1] = "lookup"    -> [out |-> out, inn |-> inn, h |-> h, inC |-> inC, res |-> res]   \* queries own nothing
 
 Actions == {<<"connect", u, v>> : u \in Nodes, v \in Nodes}
       \cup {<<"clone", o>> : o \in Nodes} \cup {<<"drop", o>> : o \in Nodes}
@@ -81,6 +83,7 @@ Actions == {<<"connect", u, v>> : u \in Nodes, v \in Nodes}
       \cup {<<"edges", o>> : o \in Nodes} \cup {<<"order", o>> : o \in Nodes}
       \cup {<<"path", u, v>> : u \in Nodes, v \in Nodes}
       \cup {<<"dropres", k>> : k \in 1..MaxRes}
+      \cup {<<"lookup", u, v>> : u \in Nodes, v \in Nodes}
 
 ReleasedIn(s) == {o \in Nodes : ~(s.h[o] > 0 \/ o \in s.inC \/ o \in UNION {s.res[k].objs : k \in 1..Len(s.res)})}
 =============================================================================
